@@ -13,22 +13,26 @@ def MissingAt (u : Updater) (v : String) : Prop := ∀ tv, u.converter.convert t
 /-- after the reconcile step no manager recorded at a missing version remains, and no error arises from it -/
 theorem reconcile_drops_missing (u : Updater) (sc : Schema) (live : TV) (m m' : Managed) (v : String)
     (hm : MissingAt u v) :
-    reconcileManaged u sc live m = .ok m' → ∀ x, x ∈ m' → x.2.version ≠ v := sorry
+    reconcileManaged u sc live m = .ok m' → ∀ x, x ∈ m' → x.2.version ≠ v :=
+  reconcileManaged_versions u sc live v hm m m'
 
 /-- …and the result equals the result on the state without those records -/
 theorem reconcile_ignores_missing (u : Updater) (sc : Schema) (live : TV) (m : Managed) (v : String)
     (hm : MissingAt u v) :
-    reconcileManaged u sc live m = reconcileManaged u sc live (m.filter (fun x => x.2.version != v)) := sorry
+    reconcileManaged u sc live m = reconcileManaged u sc live (m.filter (fun x => x.2.version != v)) :=
+  reconcileManaged_filter_missing u sc live v hm m
 
 /-- hence Apply and Update behave exactly as on the state without the records at the missing version -/
 theorem apply_ignores_missing (u : Updater) (sc : Schema) (live cfg : TV) (ver : String) (m : Managed)
     (mgr : String) (force : Bool) (v : String) (hm : MissingAt u v) :
     apply u sc live cfg ver m mgr force =
-      apply u sc live cfg ver (m.filter (fun x => x.2.version != v)) mgr force := sorry
+      apply u sc live cfg ver (m.filter (fun x => x.2.version != v)) mgr force :=
+  apply_congr_reconcile (reconcileManaged_filter_missing u sc live v hm m) cfg ver mgr force
 
 theorem update_ignores_missing (u : Updater) (sc : Schema) (live newObj : TV) (ver : String) (m : Managed)
     (mgr : String) (v : String) (hm : MissingAt u v) :
     update u sc live newObj ver m mgr =
-      update u sc live newObj ver (m.filter (fun x => x.2.version != v)) mgr := sorry
+      update u sc live newObj ver (m.filter (fun x => x.2.version != v)) mgr :=
+  update_congr_reconcile (reconcileManaged_filter_missing u sc live v hm m) newObj ver mgr
 
 end SMD.C20
